@@ -87,6 +87,13 @@ class DestFault(Exception):
     pass
 
 
+class UnprintableDestFault(DestFault):
+    def __str__(self):
+        raise RuntimeError("str() of this exception raises")
+
+    __repr__ = __str__
+
+
 class _GatedThreading(object):
     """Stands in for the `threading` module inside eliot.logwriter: new threads do not run until released."""
 
@@ -129,7 +136,7 @@ class GatedDest(object):
             self.received.append((msg, threading.get_ident()))
             self.cond.notify_all()
         if k in self.mask:
-            raise DestFault("wrapped destination fails on call %d" % k)
+            raise (UnprintableDestFault if k % 2 else DestFault)("wrapped destination fails on call %d" % k)
 
     closed_forever = False
 
@@ -388,7 +395,7 @@ def check_interleaved(case):
         calls[0] += 1
         received.append((msg, threading.get_ident()))
         if k in mask:
-            raise DestFault("fails on call %d" % k)
+            raise (UnprintableDestFault if k % 2 else DestFault)("fails on call %d" % k)
 
     clock = [0]
 
